@@ -229,12 +229,46 @@ def make_world(case):
                 out[v] = math.exp(self._table(k, int(ek[evt_idxs[v]]), x))
             return out
 
-    W.tdms, W.llh, W.eratios, W.swr, W.sob, W.sigsets = [], [], [], [], [], []
+    class SigPDFp(StubPDF, IsSignalPDF):
+        """parameter dependent signal density s0_v * exp(cs * x_k): pd and its gradients keyed by
+        the fit parameter id (stub of the value / derivative only; the quotient rule under test is
+        SigOverBkgPDFRatio.get_gradient)"""
+        def __init__(self, pname, s0, cs):
+            StubPDF.__init__(self, 'sigp')
+            self._param_set = type('PSet', (), {'params_name_list': [pname]})()
+            self.pname, self.s0, self.cs = pname, np.array(s0, dtype=np.float64), cs
+
+        def get_pd(self, tdm, params_recarray=None, tl=None):
+            (src_idxs, _e) = tdm.src_evt_idxs
+            x = params_recarray[self.pname][src_idxs]
+            g = params_recarray[self.pname + ':gpidx'][src_idxs]
+            pd = self.s0 * np.exp(self.cs * x)
+            grads = dict()
+            for key in sorted(set(int(q) for q in g if q > 0)):
+                grads[key - 1] = np.where(g == key, self.cs * pd, 0.0)
+            return (pd, grads)
+
+    class BkgPDFp(StubPDF, IsBackgroundPDF):
+        """parameter dependent background density b0_e * exp(cb * p) with p a GLOBAL fit parameter,
+        read from a trial-data field that depends on global fit parameters (recomputed by evaluate)"""
+        def __init__(self, b0field, cb, gname, fixed_val):
+            StubPDF.__init__(self, 'bkgp')
+            self.b0field, self.cb, self.gname, self.fixed_val = b0field, cb, gname, fixed_val
+
+        def get_pd(self, tdm, params_recarray=None, tl=None):
+            b0 = np.array(tdm.get_data(self.b0field), dtype=np.float64)
+            if self.fixed_val is not None:
+                return (b0 * math.exp(self.cb * self.fixed_val), dict())
+            pval = np.array(tdm.get_data('bgp'), dtype=np.float64)
+            pd = b0 * np.exp(self.cb * pval)
+            return (pd, {int(W.pmm.get_gflp_idx(self.gname)): self.cb * pd})
+
+    W.tdms, W.llh, W.eratios, W.swr, W.sob, W.sigsets, W.sobp = [], [], [], [], [], [], []
     for j, ds in enumerate(case['datasets']):
         n_raw = ds['n_raw']
         ev = DataFieldRecordArray(np.array(
-            [(i, ds['bkg'][i], 0.5 + 0.25 * ((i * 7) % 5)) for i in range(n_raw)],
-            dtype=[('ek', np.int64), ('bkg', np.float64), ('bkg2', np.float64)]))
+            [(i, ds['bkg'][i], 0.5 + 0.25 * ((i * 7) % 5), (ds['sobp']['b0'][i] if ds.get('sobp') else 1.0)) for i in range(n_raw)],
+            dtype=[('ek', np.int64), ('bkg', np.float64), ('bkg2', np.float64), ('b0p', np.float64)]))
         tdm = TrialDataManager()
         tdm.initialize_trial(shg_mgr=W.shg_mgr, pmm=W.pmm, events=ev, n_events=ds['N'],
                              evt_sel_method=Sel(ds['keep'], ds['pairs']))
@@ -260,6 +294,22 @@ def make_world(case):
                 ers.append(er)
             ratio = PDFRatioProduct(ratio, er, cfg=cfg)
         W.sigsets.append(sgs)
+        sp = ds.get('sobp')
+        if sp is not None:
+            sigp = SigPDFp(local_name(sp['pn']), sp['s0'], sp['cs'])
+            gname = global_name(sp['gname'])
+            bkgp = BkgPDFp('b0p', sp['cb'], gname, sp['fixed_val'])
+            if sp['fixed_val'] is None:
+                tdm.add_data_field(
+                    'bgp', lambda tdm, shg_mgr, pmm, global_fitparams_dict=None, gname=gname: np.full(
+                        (tdm.n_selected_events,), float(global_fitparams_dict[gname])),
+                    global_fitparam_names=[gname])
+            sobp = SigOverBkgPDFRatio(sig_pdf=sigp, bkg_pdf=bkgp, same_axes=False,
+                                      zero_bkg_ratio_value=sp.get('zero_bkg', 1.0), cfg=cfg)
+            ratio = PDFRatioProduct(ratio, sobp, cfg=cfg)
+            W.sobp.append((sobp, sigp, bkgp))
+        else:
+            W.sobp.append(None)
         swr = SourceWeightedPDFRatio(dataset_idx=j, src_detsigyield_weights_service=W.a_service, pdfratio=ratio, cfg=cfg)
         llh = ZeroSigH0SingleDatasetTCLLHRatio(pmm=W.pmm, minimizer=minimizer, shg_mgr=W.shg_mgr, tdm=tdm,
                                                pdfratio=swr, cfg=cfg)
